@@ -668,21 +668,45 @@ func (p *Prog) GuardStrings(in ssa.Instruction) []string {
 		// `var ok bool; if pre { _, ok = lookup }; if ok {…}`: a flag that is false unless one
 		// test set it.  Where the flag holds, that test held; where it does not, the test
 		// failed or was never made ("maybe-not:" — for rules about what happens on a miss).
-		if ph, isPhi := a.Cond.(*ssa.Phi); isPhi {
+		if ph, isPhi := a.Cond.(*ssa.Phi); isPhi && ph.Comment != "||" && ph.Comment != "&&" {
+			// leaves of the merge, through nested merges (a flag carried round a loop)
 			var only ssa.Value
+			var onlyFrom *ssa.BasicBlock
 			okShape := true
-			for _, e := range ph.Edges {
-				if k, isC := e.(*ssa.Const); isC && k.Value != nil && k.Value.Kind() == constant.Bool && !constant.BoolVal(k.Value) {
-					continue
+			seenPh := map[*ssa.Phi]bool{}
+			var leaves func(x *ssa.Phi)
+			leaves = func(x *ssa.Phi) {
+				if seenPh[x] {
+					return
 				}
-				if only != nil && only != e {
-					okShape = false
+				seenPh[x] = true
+				for k, e := range x.Edges {
+					if c, isC := e.(*ssa.Const); isC && c.Value != nil && c.Value.Kind() == constant.Bool && !constant.BoolVal(c.Value) {
+						continue
+					}
+					if inner, isP := e.(*ssa.Phi); isP && inner.Comment != "||" && inner.Comment != "&&" {
+						leaves(inner)
+						continue
+					}
+					if only != nil && only != e {
+						okShape = false
+					}
+					only = e
+					if k < len(x.Block().Preds) {
+						onlyFrom = x.Block().Preds[k]
+					}
 				}
-				only = e
 			}
+			leaves(ph)
 			if okShape && only != nil {
 				if a.Pol {
 					add(NormAtom(only, true))
+					// … and what guarded the one assignment that can have set it
+					if onlyFrom != nil && len(onlyFrom.Instrs) > 0 && len(seenPh) > 1 {
+						for _, g := range p.GuardsOf(onlyFrom) {
+							add(NormAtom(g.Cond, g.Pol))
+						}
+					}
 				} else {
 					add("maybe-not:" + NormAtom(only, true))
 				}
